@@ -47,7 +47,7 @@ class Gen(object):
         vals = sorted(r.sample(range(0, min(maxv, 12) + 1), min(k, min(maxv, 12) + 1)))
         names = ["AA", "BB", "CC", "DD", "EE_1", "X_Y"]
         e = M.Enum(name or self.tname("En"), [(names[i], v) for i, v in enumerate(vals)])
-        if r.random() < 0.3:
+        if r.random() < 0.45:
             e.enum_case = r.choice(["kCamelCase", "kCamelCase, SHOUTY_CASE", "SHOUTY_CASE, kCamelCase"])
             self.features.add("enum_case")
         return e
